@@ -98,6 +98,77 @@ def rule_dual_nonneg(repo, rep):
                                ast.unparse(w.target)))
 
 
+def _itml_roles(repo, f, loop=None):
+  """{actual name: canonical role} for _BaseITML._fit, discovered from
+  definitions and uses (never from the names themselves): A = the matrix
+  handed to components_from_metric; gamma = the local holding self.gamma;
+  gamma_proj = the conditional expression over gamma; inside a projection
+  loop: (i, v) = the loop targets, Av = A v, alpha = the min(...) step,
+  _lambda = the clipped dual, wtw = v^T A v, beta = the factor of the outer
+  update, <side>_bhat = the slack vector written at [i]."""
+  roles = {}
+  stores = [n for n in ast.walk(f.node) if isinstance(n, ast.Assign) and
+            ast.unparse(n.targets[0]) == 'self.components_']
+  if stores and isinstance(stores[-1].value, ast.Call) and \
+          stores[-1].value.args and \
+          isinstance(stores[-1].value.args[0], ast.Name):
+    roles[stores[-1].value.args[0].id] = 'A'
+  A = next((k for k, v in roles.items() if v == 'A'), None)
+  for n in ast.walk(f.node):
+    if isinstance(n, ast.Assign) and isinstance(n.targets[0], ast.Name):
+      if ast.unparse(n.value) == 'self.gamma':
+        roles[n.targets[0].id] = 'gamma'
+  g = next((k for k, v in roles.items() if v == 'gamma'), None)
+  for n in ast.walk(f.node):
+    if isinstance(n, ast.Assign) and isinstance(n.targets[0], ast.Name) and \
+            isinstance(n.value, ast.IfExp) and g and \
+            g in [x.id for x in ast.walk(n.value) if isinstance(x, ast.Name)]:
+      roles[n.targets[0].id] = 'gamma_proj'
+  if loop is None or A is None:
+    return roles
+  tg = loop.target
+  if isinstance(tg, ast.Tuple) and len(tg.elts) == 2 and \
+          all(isinstance(e, ast.Name) for e in tg.elts):
+    roles[tg.elts[0].id] = 'i'
+    roles[tg.elts[1].id] = 'v'
+  elif isinstance(tg, ast.Name):
+    roles[tg.id] = 'v'
+  v = next((k for k, r in roles.items() if r == 'v'), None)
+  i = next((k for k, r in roles.items() if r == 'i'), None)
+  for s_ in loop.body:
+    if not isinstance(s_, ast.Assign):
+      continue
+    t0 = s_.targets[0]
+    if isinstance(t0, ast.Name):
+      txt = ast.unparse(s_.value)
+      if v and txt in ('%s.dot(%s)' % (A, v), 'np.dot(%s, %s)' % (A, v),
+                       '%s @ %s' % (A, v)):
+        roles[t0.id] = 'Av'
+      elif isinstance(s_.value, ast.Call) and \
+              isinstance(s_.value.func, ast.Name) and \
+              s_.value.func.id == 'min' and len(s_.value.args) == 2:
+        roles[t0.id] = 'alpha'
+        a0 = s_.value.args[0]
+        if isinstance(a0, ast.Subscript) and isinstance(a0.value, ast.Name):
+          roles[a0.value.id] = '_lambda'
+      else:
+        nm = [x.id for x in ast.walk(s_.value) if isinstance(x, ast.Name)]
+        if v and nm.count(v) == 2 and A in nm:
+          roles[t0.id] = 'wtw'
+    elif isinstance(t0, ast.Subscript) and isinstance(t0.value, ast.Name) \
+            and i and ast.unparse(t0.slice) == i:
+      roles[t0.value.id] = 'xi_bhat'
+  for s_ in loop.body:
+    if isinstance(s_, ast.AugAssign) and ast.unparse(s_.target) == A and \
+            isinstance(s_.value, ast.Call):
+      av = next((k for k, r in roles.items() if r == 'Av'), None)
+      others = set(x.id for x in ast.walk(s_.value)
+                   if isinstance(x, ast.Name)) - {av, 'np', A}
+      if len(others) == 1:
+        roles[others.pop()] = 'beta'
+  return roles
+
+
 def rule_rank_one(repo, rep):
   R = 'R-EFFECT:itml-rank-one-updates-only'
   rep.rule(R, 'between the prior and components_from_metric the matrix is '
@@ -165,11 +236,20 @@ def rule_rank_one(repo, rep):
       pm = astutil.parents(f.node)
       blk = getattr(pm.get(n), 'body', [])
       avs = set()
+      lp = pm.get(n)
+      vn = None
+      if isinstance(lp, ast.For):
+        tg_ = lp.target
+        if isinstance(tg_, ast.Tuple) and tg_.elts and \
+                isinstance(tg_.elts[-1], ast.Name):
+          vn = tg_.elts[-1].id
+        elif isinstance(tg_, ast.Name):
+          vn = tg_.id
       for s in blk:
         if isinstance(s, ast.Assign) and isinstance(s.targets[0], ast.Name) \
-                and ast.unparse(s.value) in ('%s.dot(v)' % A,
-                                             'np.dot(%s, v)' % A,
-                                             '%s @ v' % A):
+                and vn and ast.unparse(s.value) in (
+                    '%s.dot(%s)' % (A, vn), 'np.dot(%s, %s)' % (A, vn),
+                    '%s @ %s' % (A, vn)):
           avs.add(s.targets[0].id)
       if avs and sum(1 for x in cand if x in avs) == 2:
         good = True
@@ -198,14 +278,24 @@ def rule_update_formulas(repo, rep):
            'gamma/(gamma+1) (1/p - 1/xi_i)), beta = delta alpha / (1 - delta '
            'alpha p), xi_i <- gamma xi_i / (gamma + delta alpha xi_i), as '
            'rational functions of (p, xi_i, alpha, gamma)')
-  f = repo.get_func('itml._BaseITML._fit')
+  f0 = repo.get_func('itml._BaseITML._fit')
+  base_roles = _itml_roles(repo, f0)
+  An = next((k for k, v in base_roles.items() if v == 'A'), None)
+  loops0 = [n for n in ast.walk(f0.node) if isinstance(n, ast.For) and
+            any(isinstance(s, ast.AugAssign) and
+                ast.unparse(s.target) == An for s in n.body)]
+  if len(loops0) != 2:
+    rep.unknown(R, 'itml._BaseITML._fit', site(f0), '%d projection loops'
+                % len(loops0))
+    return
+  f = astutil.role_view(f0, base_roles)
+  if f is None:
+    rep.unknown(R, 'itml._BaseITML._fit', site(f0), 'roles %s cannot be given '
+                'canonical names' % base_roles)
+    return
   loops = [n for n in ast.walk(f.node) if isinstance(n, ast.For) and
            any(isinstance(s, ast.AugAssign) and
                ast.unparse(s.target) == 'A' for s in n.body)]
-  if len(loops) != 2:
-    rep.unknown(R, 'itml._BaseITML._fit', site(f), '%d projection loops'
-                % len(loops))
-    return
   # gamma_proj
   gp = [v for (n, v) in guards.assignments(f.node, 'gamma_proj')
         if v is not None]
@@ -222,9 +312,17 @@ def rule_update_formulas(repo, rep):
           'refuted', site(f), '' if gp_ok else 'gamma_proj is %s, documented '
           'gamma / (gamma + 1) (1 when gamma is inf)'
           % (ast.unparse(gp[0]) if gp else None))
-  for li, loop in enumerate(sorted(loops, key=lambda n: n.lineno)):
+  for li, loop0 in enumerate(sorted(loops0, key=lambda n: n.lineno)):
     delta = Rat.const(1 if li == 0 else -1)
     tag = 'similar' if li == 0 else 'dissimilar'
+    fv = astutil.role_view(f0, _itml_roles(repo, f0, loop0))
+    if fv is None:
+      rep.unknown(R, 'itml._BaseITML._fit:%s' % tag, site(f0, loop0),
+                  'roles of the projection step cannot be given canonical '
+                  'names')
+      continue
+    loop = [n for n in ast.walk(fv.node) if isinstance(n, ast.For) and
+            n.lineno == loop0.lineno and n.col_offset == loop0.col_offset][0]
     stm = {}
     for s in loop.body:
       if isinstance(s, ast.Assign):
